@@ -32,33 +32,34 @@ unconditional sites and the two normalisation phases share one context object. -
 theorem normalize_order :
     infixB ["normalize_phase1", "pipeline_barrier", "normalize_phase2", "event_sanity_checks"]
       ((Gen.sites.filter (fun s => !s.cond)).map (·.name)) = true ∧
-    (Gen.sites.filter (fun s => s.name == "normalize_phase1" || s.name == "normalize_phase2")).map
-      (fun s => (s.cond, s.ctx)) = [(false, "normalize_ctx"), (false, "normalize_ctx")] := by
+    ((Gen.sites.filter (fun s => s.name == "normalize_phase1" || s.name == "normalize_phase2")).map
+      (·.cond) = [false, false] ∧
+     ((Gen.sites.filter (fun s => s.name == "normalize_phase1" || s.name == "normalize_phase2")).map
+      (·.ctx)).eraseDups.length = 1) := by
   decide +kernel
 
 /-- **C04**: `sort_events → assert_ts_sequence → detect_partial_overlap_tids → pipeline_barrier →
 detect_partial_overlap_events` is one contiguous block; the tid collection and its barrier sit
 under one common condition, the others are unconditional, and collection and detection share the
-context `overlap_ctx`. -/
+same context object (identical context expression). -/
 theorem overlap_order :
     (block ["sort_events", "assert_ts_sequence", "detect_partial_overlap_tids", "pipeline_barrier",
         "detect_partial_overlap_events"] Gen.sites).map
       (fun b => (b.map (·.cond), (b.map (·.guard)).eraseDups.length,
-                 (b.filter (fun s => s.name.startsWith "detect_")).map (·.ctx)))
-      = some ([false, false, true, true, false], 2, ["overlap_ctx", "overlap_ctx"]) := by
+                 ((b.filter (fun s => s.name.startsWith "detect_")).map (·.ctx)).eraseDups.length))
+      = some ([false, false, true, true, false], 2, 1) := by
   decide +kernel
 
 /-- **C20**: `communication_event_collection → pipeline_barrier → communication_event_apply` is one
 contiguous block, the barrier is unconditional, collection and application sit under the same
-condition and share `communication_event_ctx`: nothing between collection and application can
+condition and share one context object: nothing between collection and application can
 drop or reorder a slice. -/
 theorem comm_order :
     (block ["communication_event_collection", "pipeline_barrier", "communication_event_apply"]
         Gen.sites).map
-      (fun b => (b.map (·.cond), b.map (·.ctx),
+      (fun b => (b.map (·.cond), ((b.filter (·.cond)).map (·.ctx)).eraseDups.length,
                  (b.filter (·.cond)).map (·.guard) |>.eraseDups |>.length))
-      = some ([true, false, true],
-              ["communication_event_ctx", "event_pipe._main_barrier_context", "communication_event_ctx"], 1) := by
+      = some ([true, false, true], 1, 1) := by
   decide +kernel
 
 /-- **C10**: `extract_power_event → sort_events → compute_power` is one contiguous block under one
